@@ -53,9 +53,11 @@ func NewConstrainedHmmEstimator(pi Vector, tr Matrix, stateMap, startStates, fin
     }
     // initialize estimators with data
     r := HmmEstimator{}
-    r.hmm1       = hmm.Clone()
-    r.hmm2       = hmm.Clone()
-    r.hmm3       = hmm.Clone()
+    // the estimator works on the embedded plain hmm (with the constrained
+    // transition matrix)
+    r.hmm1       = hmm.Hmm.Clone()
+    r.hmm2       = hmm.Hmm.Clone()
+    r.hmm3       = hmm.Hmm.Clone()
     r.estimators = estimators
     r.epsilon    = epsilon
     r.maxSteps   = maxSteps
